@@ -120,7 +120,7 @@ def run_shard(mod, ctx, mon):
 
 
 def write_replay(pid, witness):
-    d = os.path.join(common.VERIF_HOME, "replay")
+    d = os.environ.get("VERIF_REPLAY_DIR") or os.path.join(common.VERIF_HOME, "replay")
     os.makedirs(d, exist_ok=True)
     path = os.path.join(d, f"{pid}-{common.digest_of(witness)}.json")
     with open(path, "w") as fh:
@@ -158,7 +158,8 @@ def evidence(mod, pid, ctx, mon, wall, verdict, nshards):
         "wall_s": round(wall, 2),
         "violations": len(mon.violations),
     }
-    d = os.path.join(common.VERIF_HOME, "evidence")
+    # evidence/<ID>.json is about /repo; self-test runs against scratch copies (VERIF_REPO) redirect it
+    d = os.environ.get("VERIF_EVIDENCE_DIR") or os.path.join(common.VERIF_HOME, "evidence")
     os.makedirs(d, exist_ok=True)
     tmp = os.path.join(d, f".{pid}.json.tmp")
     with open(tmp, "w") as fh:
